@@ -18,6 +18,7 @@ func main() {
 	cert := flag.Bool("cert", false, "certificate")
 	mem := flag.Bool("mem", false, "track memory")
 	nomerge := flag.Bool("nomerge", false, "disable merging")
+	zeroden := flag.Int("zeroden", 0, "zero-denominator exploration budget")
 	logf := flag.String("log", "", "solver log file")
 	full := flag.Bool("json", false, "print the raw result as JSON")
 	dir := flag.String("dir", "/verif/harness", "harness module directory")
@@ -49,7 +50,7 @@ func main() {
 		}
 		params = append(params, v)
 	}
-	res := sym.RunCase(p, sol, sym.CaseSpec{Pkg: "verif/harness/h", Harness: args[0], Name: name, Params: params, FP: *fp, Cert: *cert, TrackMem: *mem, NoMerge: *nomerge})
+	res := sym.RunCase(p, sol, sym.CaseSpec{Pkg: "verif/harness/h", Harness: args[0], Name: name, Params: params, FP: *fp, Cert: *cert, TrackMem: *mem, NoMerge: *nomerge, ZeroDen: *zeroden})
 	res.Funcs = nil
 	if *full {
 		b, _ := json.MarshalIndent(res, "", " ")
